@@ -51,6 +51,17 @@ type ClientStream struct {
 
 func (s *ClientStream) Negotiated() int { return s.Rev }
 
+// ForgetQueries drops every packet recorded after the handshake (hello and addendum stay), so
+// that counting preconditions start afresh; the parse state (negotiated revision, position in
+// the byte stream) is kept.
+func (s *ClientStream) ForgetQueries() {
+	keep := 0
+	for keep < len(s.Packets) && (s.Packets[keep].Kind == PHello || s.Packets[keep].Kind == PAddendum) {
+		keep++
+	}
+	s.Packets = s.Packets[:keep]
+}
+
 // Feed appends bytes and parses as many complete packets as possible.
 func (s *ClientStream) Feed(b []byte) {
 	s.Buf = append(s.Buf, b...)
